@@ -37,6 +37,29 @@ func umfSome(r *rand.Rand) int {
 	return 0
 }
 
+// genAliasCond: a Condition in a random form whose expression is a Stack (any form), a string, or a Condition again
+// (any form, cnest further levels - Condition in Condition to depth 3, a Stack possibly below the innermost one); every
+// Condition on the way may carry an Unmarshaler. F43: Unmarshal expands a held Condition through the public
+// Condition.Unmarshal (its Unmarshaler is consulted, its error ends the walk), whatever its form.
+func genAliasCond(r *rand.Rand, depth, cnest int, kw, op string) V {
+	var ex V
+	switch {
+	case (depth > 0 || cnest < 3) && r.Intn(2) == 0:
+		d := depth - 1
+		if d < 0 {
+			d = 0
+		}
+		ex = genAliasTree(r, d)
+	case cnest > 0 && r.Intn(1+cnest) == 0: // outermost: one in four; inside a chain: more often
+		nextLeaf++
+		ex = genAliasCond(r, depth, cnest-1, []string{"in", "in2", "in3"}[3-cnest], "c3")
+	default:
+		nextLeaf++
+		ex = V{T: 's', S: fmt.Sprintf("v%d", nextLeaf)}
+	}
+	return V{T: 'C', Form: forms[r.Intn(4)], Cfg: Cfg{Umf: umfSome(r)}, Kw: kw, Op: op, Xs: []V{ex}}
+}
+
 // genAliasTree: a Stack in a random form; nested Stacks, nested Conditions and Condition-held Stacks may carry an
 // Unmarshaler (the caller clears the one of the top-level receiver)
 func genAliasTree(r *rand.Rand, depth int) V {
@@ -54,16 +77,7 @@ func genAliasTree(r *rand.Rand, depth int) V {
 		case depth > 0 && r.Intn(2) == 0:
 			st.Xs = append(st.Xs, genAliasTree(r, depth-1))
 		case r.Intn(3) == 0:
-			var ex V
-			switch {
-			case depth > 0 && r.Intn(2) == 0:
-				ex = genAliasTree(r, depth-1)
-			case r.Intn(4) == 0:
-				ex = V{T: 'C', Form: forms[r.Intn(4)], Cfg: Cfg{Umf: umfSome(r)}, Kw: "in", Op: "c3", Xs: []V{{T: 'i', I: int64(nextLeaf)}}}
-			default:
-				ex = V{T: 's', S: fmt.Sprintf("v%d", nextLeaf)}
-			}
-			st.Xs = append(st.Xs, V{T: 'C', Form: forms[r.Intn(4)], Cfg: Cfg{Umf: umfSome(r)}, Kw: fmt.Sprintf("k%d", nextLeaf), Op: "c1", Xs: []V{ex}})
+			st.Xs = append(st.Xs, genAliasCond(r, depth, 3, fmt.Sprintf("k%d", nextLeaf), "c1"))
 		case r.Intn(9) == 0:
 			st.Xs = append(st.Xs, V{T: 'N'})
 		default:
